@@ -9,7 +9,7 @@ import vlib
 from vlib import Case
 
 PROP = "C03"
-PROOF_FILES = ["Properties/C03.v"]
+PROOF_FILES = ["Properties/C03.v", "Properties/ModelTie.v", "Properties/C04tie.v"]
 PCRMAX = (2 ** 33) * 300
 RULE = ("random histories of 1..60 setter calls (the 13 setters of packet/adaptationfield.go + Packet.SetAdaptationField) from random "
         "well-formed starts (adaptation_field_length 1..183, with/without payload, random subsets of optional fields, serialised "
